@@ -525,7 +525,8 @@ MODELS = {
     "C03": [("LdpcMl_MC", "LdpcMl_quick", "LdpcMl_thorough")],
     "C02": [("RsSession", "RsSession", "RsSession_thorough"), ("ApiModel_MC", "ApiModel", "ApiModel"),
             ("RsCodecModel", "RsCodec_quick", "RsCodec_gf16"), ("RsCodecModel", "RsCodec_gf256_quick", "RsCodec_gf256")],
-    "C08": [("ApiModel_MC", "ApiModel", "ApiModel"), ("LdpcIt_MC", "LdpcIt_quick", "LdpcIt_thorough"), ("LdpcIt_MC", "LdpcIt_quick_cb", "LdpcIt_quick_cb")],
+    "C08": [("ApiModel_MC", "ApiModel", "ApiModel"), ("LdpcIt_MC", "LdpcIt_quick", "LdpcIt_thorough"), ("LdpcIt_MC", "LdpcIt_quick_cb", "LdpcIt_quick_cb"),
+            ("LdpcMl_MC", "LdpcMl_quick", "LdpcMl_thorough"), ("LdpcMl_MC", "LdpcMl_quick_cb", "LdpcMl_quick_cb")],
     "C10": [("RsSession", "RsSession", "RsSession_thorough"), ("LdpcMl_MC", "LdpcMl_quick", "LdpcMl_thorough"),
             ("ApiModel_MC", "ApiModel", "ApiModel")],
     "C11": [("RsSession", "RsSession", "RsSession_thorough")],
